@@ -4,6 +4,8 @@ SPEC  ProxyMC: every request class (hijacked routes x argument styles x argument
       pass-through path/query/body classes x methods) is an initial state; TLC checks that the observation the
       transcription of ipfsproxy.go predicts satisfies the statement's predicates (HijackExact, NeverLeaks,
       ErrorMeansNoOp, Faithful, RelayIdentity) and writes the request classes as cases (GEN).
+      ProxySeq: every request of a smaller alphabet from every reachable pinset, same predicates asserted per transition;
+      its random walks (-simulate) are the request sequences replayed without resetting the harness cluster.
 R     every case is concretised (seeded) and sent through the real ipfsproxy.Server, which sits between a recording
       IPFS daemon and a recording, pinset-consistent Cluster RPC server; the driver records
       (response, cluster ops, pinset after, daemon calls).
@@ -84,7 +86,10 @@ def run(ctx):
     ctx.assumptions = [
         "the cluster behind the proxy is the harness RPC server: pinset-consistent (PinPath/UnpinPath/Unpin/PinGet "
         "fail exactly when the real Cluster would for the same pinset), no injected faults, so errors are input determined",
-        "the pinset before every request is {cP, cQ}; one request per case (the proxy keeps no pinning state)",
+        "single cases start from one of three pinsets (w0 = {cP,cQ}, w1 = {}, w2 = {cP,cQ direct, cU, cR}); sequences are "
+        "TLC random walks of ProxySeq replayed without resetting the harness cluster",
+        "a connection cut between the driver's client and the proxy is retried (Go's httputil.ReverseProxy alone cuts "
+        "about 1e-4 of chunked responses to requests with a body); it is never a verdict",
         "byte identity of relayed requests is checked on method, request-target (escaped path + raw query), body "
         "digest and seven end-to-end headers; of responses on status, body digest and four headers",
         "add parameters (layout, chunker, cid-version, raw-leaves) are observed through the root CID, decoded with a "
@@ -141,7 +146,13 @@ def script_of(ctx, rec):
     me = cases.get(rec["id"])
     if me is None:
         return [{"id": rec["id"], "grp": rec.get("grp", 1), "reset": True, "world": rec["req"]["world"], "req": rec["req"]}]
-    return [c for i, c in sorted(cases.items()) if c["grp"] == me["grp"] and i <= rec["id"]]
+    idx = getattr(ctx, "_bygrp", None)
+    if idx is None:
+        idx = {}
+        for i in sorted(cases):
+            idx.setdefault(cases[i]["grp"], []).append(cases[i])
+        ctx._bygrp = idx
+    return [c for c in idx[me["grp"]] if c["id"] <= rec["id"]]
 
 
 CLASSES = [("exact", "HijackExact"), ("relay", "RelayIdentity"), ("leak", "NeverLeaks"),
@@ -194,12 +205,21 @@ def validate(ctx, trace):
     ctx.traces_validated += v["n"] - len(bad | drift)
     ctx.extra["tuples_checked_by_tlc"] = ctx.extra.get("tuples_checked_by_tlc", 0) + v["n"]
     ctx.extra["transcription_drift"] = len(drift)
+    known = ctx.known()
+    unknown = 0
+    perkey = {}
     for cls, pred in CLASSES:
         for i in sorted(v[cls]):
             rec = recs[i - 1]
-            ctx.violation(key_of(cls, rec), "%s violated: %s" % (pred, rec["obs"].get("detail", "")[:300]),
+            if (ctx.prop, key_of(cls, rec)) not in known:
+                unknown += 1
+            k = key_of(cls, rec)
+            perkey[k] = perkey.get(k, 0) + 1
+            if perkey[k] > 3:
+                continue
+            ctx.violation(k, "%s violated: %s" % (pred, rec["obs"].get("detail", "")[:300]),
                           {"script": script_of(ctx, rec), "rec": rec})
-    if drift and not bad:
+    if drift and not unknown:
         first = recs[sorted(drift)[0] - 1]
         print("SPEC-DRIFT: %d recorded tuples satisfy the property predicates but not the transcription of "
               "ipfsproxy.go (first: %s | %s)" % (len(drift), json.dumps({k: x for k, x in first["req"].items() if x != "-"}),
